@@ -15,6 +15,12 @@ versions produce (pad postings with ``meta = None``, vt.ledgers.legacy_pad); the
 the alphabet yields ``meta is None`` postings from text alone.  Two ledgers outside the bound are added: the
 full alphabet, and a ledger with a failing balance assertion (non-NULL ``discrepancy``).
 
+Re-attach sweep: for ordered pairs (A, B) of ledgers (all pairs of the n <= 1 family; the full alphabet and the
+error ledgers against that family, both directions) B is attached with ``Connection.attach('beancount:',
+entries=..., errors=..., options=...)`` -- the call beanquery.connect() makes and the shell's ``.reload`` repeats on
+its live connection -- to a connection that already had A attached and queried; the complete oracle of B must
+hold on that connection: the ledger of a connection is the one attached last (fingerprint ``reattach``).
+
 Oracle: vt.ref.ledger -- a direct traversal of the loaded entries written from the property text (no
 beanquery code involved): row counts and every cell are compared, by (type, value), collections by kind.
 
@@ -121,16 +127,21 @@ def column_target(table, name):
 class Explorer:
     """All queries of one (ledger, variant) against its reference rows."""
 
-    def __init__(self, acc, entries, errors, options, label, case):
+    def __init__(self, acc, entries, errors, options, label, case, conn=None, fp=None):
         self.acc = acc
         self.entries = entries
         self.label = label
         self.case = case
-        self.conn = beanquery.connect('beancount:', entries=entries, errors=errors, options=options)
+        # conn given: a connection on which this ledger was attached AFTER another one (re-attach sweep)
+        self.conn = conn or beanquery.connect('beancount:', entries=entries, errors=errors, options=options)
+        self.fp = fp
         self.unmodelled = set()
 
     # -- plumbing ----------------------------------------------------------------------------------
     def violation(self, fp, what):
+        if self.fp:
+            what = f'[{fp}] {what}'
+            fp = self.fp
         self.acc.violation(fp, f'ledger {self.label}: {what}', dict(self.case, fingerprint=fp))
 
     def execute(self, table, targets, star=False):
@@ -372,8 +383,51 @@ def extras(acc, seed):
     acc.count('extra_ledgers', 1 + len(ledgers.EXTRAS))
 
 
+def spec_text(spec, seed):
+    """(label, text) of a ledger named by a replayable spec: {'names': [...]}, {'full': true} or {'extra': name}."""
+    if 'names' in spec:
+        return f'{list(spec["names"])}', ledgers.text_of(spec['names'], seed)
+    if spec.get('full'):
+        return 'FULL-ALPHABET', ledgers.text_of(ledgers.NAMES, seed)
+    return f'EXTRA:{spec["extra"]}', ledgers.EXTRAS[spec['extra']]
+
+
+def reattach_pairs():
+    """Ordered pairs (A, B), A != B: all pairs of the n <= 1 family, the full alphabet against every member of
+    the n <= 1 family in both directions, and the full alphabet against the ledgers that load with errors."""
+    small = [{'names': list(names)} for names, _ in ledgers.family(1, verify=False)]
+    rich = [{'full': True}] + [{'extra': name} for name in ledgers.EXTRAS]
+    pairs = [(a, b) for a in small for b in small if a != b]
+    pairs += [(a, b) for a in small for b in rich] + [(a, b) for a in rich for b in small]
+    pairs += [(a, b) for a in rich for b in rich if a != b]
+    return pairs
+
+
+def explore_reattach(acc, a, b, seed):
+    """connect(A); a few queries on A; conn.attach('beancount:', entries=B, errors=B, options=B) -- the call
+    beanquery.connect() itself makes and the shell's .reload repeats on its live connection -- then the complete
+    per-table / per-column / lookup oracle of B on that connection."""
+    la, ta = spec_text(a, seed)
+    lb, tb = spec_text(b, seed)
+    ea, ra, oa = ledgers.load(ta)
+    eb, rb, ob = ledgers.load(tb)
+    conn = beanquery.connect('beancount:', entries=ea, errors=ra, options=oa)
+    for table in TABLES:
+        conn.execute(select(A.Asterisk(), from_=A.Table(table))).fetchall()
+    conn.execute(select([A.Target(F('open_date', col('account')), 'c0'),
+                         A.Target(F('commodity_meta', col('currency'), K('name')), 'c1')], from_=A.Table('postings'))).fetchall()
+    conn.attach('beancount:', entries=eb, errors=rb, options=ob)
+    acc.count('reattach_pairs')
+    case = {'kind': 'reattach', 'a': a, 'b': b, 'seed': seed}
+    Explorer(acc, eb, rb, ob, f'{lb} attached to a connection that had {la} attached before', case,
+             conn=conn, fp='reattach').run()
+
+
 def shard_fn(shard, nshards, n, seed):
     acc = Acc()
+    for pi, (a, b) in enumerate(reattach_pairs()):
+        if pi % nshards == shard:
+            explore_reattach(acc, a, b, seed)
     for index, names, text in ledgers.family_sharded(n, shard, nshards, seed=seed):
         acc.count('ledgers')
         acc.count(f'ledgers_with_{len(names)}_snippets')
@@ -396,6 +450,9 @@ def replay(case):
     acc = Acc()
     acc.MAX_VIOL_PER_FP = 10
     seed = case.get('seed', 0)
+    if case['kind'] == 'reattach':
+        explore_reattach(acc, case['a'], case['b'], seed)
+        return [v for v in acc.violations if v.fingerprint == case.get('fingerprint', v.fingerprint)]
     if case['kind'] == 'family':
         text = ledgers.text_of(case['names'], seed)
         label = f'{case["names"]}'
@@ -415,7 +472,7 @@ def minimise(violations, seed):
     the first case per fingerprint): the family is re-walked simplest first, up to two snippets."""
     fps = []
     for v in violations:
-        if v.fingerprint not in fps:
+        if v.fingerprint not in fps and v.fingerprint != 'reattach':
             fps.append(v.fingerprint)
     found = {}
     for _, names, text in ledgers.family_sharded(2, 0, 1, seed=seed):
@@ -458,6 +515,10 @@ def run(ctx):
         'ledger_variants': acc.n['ledger_variants'],
         'legacy_pad_variants': acc.n['legacy_variants'],
         'extra_ledgers_outside_the_bound': acc.n['extra_ledgers'],
+        'reattach_pairs': acc.n['reattach_pairs'],
+        'reattach_rule': 'ordered pairs (A, B), A != B: all pairs of the n <= 1 family + full alphabet and error ledgers against '
+                         'the n <= 1 family in both directions; B attached with Connection.attach on a connection that had A, then '
+                         'the full oracle of B (fingerprint "reattach")',
         'tables': sorted(acc.sets['tables']),
         'columns_per_table': per_table,
         'columns': len(columns),
@@ -488,6 +549,8 @@ def run(ctx):
         'accounts and commodities rows are matched by key, other tables in ledger order',
         '* may expand to any subset of the columns; unknown (extension) columns are not judged',
         'cells are compared by (type, value), Decimal exponent ignored, collections by kind (set / frozenset / duplicate-free list)',
+        'after a second Connection.attach (what beanquery.connect does once and the shell .reload repeats) the ledger of the connection is '
+        'the one attached last: every table and lookup must present it',
         'pad postings without metadata are obtained by stripping the metadata of the postings of P transactions (Beancount < 3.1 shape); '
         'the currency_accounts plugin gives meta-less postings from text',
     ])
